@@ -33,7 +33,77 @@ def field? : SX → Option (List Char × GType)
     | _, _ => none
   | _ => none
 
+/-- `none` | `(b 0|1)` | `(i 0|1 <nat>)` (sign, magnitude) | `(f <repr>)` | `(s <str>)` | `(l v…)` | `(d (k v)…)` -/
+partial def pyval? : SX → Option PyVal
+  | .atom "none" => some .none
+  | .list [.atom "b", x] => x.bool?.map .bool
+  | .list [.atom "i", sg, n] => match sg.bool?, n.nat? with
+    | some neg, some n => some (.int (if neg then -(n : Int) else (n : Int)))
+    | _, _ => none
+  | .list [.atom "f", s] => s.str?.map .float
+  | .list [.atom "s", s] => s.str?.map .str
+  | .list (.atom "l" :: xs) => (xs.mapM pyval?).map .list
+  | .list (.atom "d" :: kvs) => (kvs.mapM (fun (kv : SX) => match kv with
+      | SX.list [k, v] => match k.str?, pyval? v with
+        | some k, some v => some (k, v)
+        | _, _ => none
+      | _ => none)).map .dict
+  | _ => none
+
+partial def encPyVal : PyVal → String
+  | .none => "none"
+  | .bool x => "(b " ++ b x ++ ")"
+  | .int i => "(i " ++ b (i < 0) ++ " " ++ toString i.natAbs ++ ")"
+  | .float r => "(f " ++ encodeStr r ++ ")"
+  | .str s => "(s " ++ encodeStr s ++ ")"
+  | .list xs => "(l" ++ String.join (xs.map (fun x => " " ++ encPyVal x)) ++ ")"
+  | .dict kvs => "(d" ++ String.join (kvs.map (fun kv => " (" ++ encodeStr kv.1 ++ " " ++ encPyVal kv.2 ++ ")")) ++ ")"
+
+/-- `u` (Undefined) | `(v <pyval>)` -/
+def default? : SX → Option DefaultValue
+  | .atom "u" => some .undefined
+  | .list [.atom "v", v] => (pyval? v).map .value
+  | _ => none
+
+def encFieldD (f : FieldD) : String :=
+  encField f.ir ++ " " ++ b f.hasDefault ++ " " ++ encPyVal f.default ++ " "
+    ++ (match f.memberDefault with | none => "nodefault" | some v => "(m " ++ encPyVal v ++ ")")
+
+def fieldD? : SX → Option (List Char × GType × DefaultValue)
+  | .list [n, t, d] => match n.str?, gtype? t, default? d with
+    | some n, some t, some d => some (n, t, d)
+    | _, _, _ => none
+  | _ => none
+
 def handlers : List (String × Handler) := [
+  ("gql.parsefieldd", fun
+    | [fo, isIn, t, d] => match fo.bool?, isIn.bool?, gtype? t, default? d with
+      | some fo, some isIn, some t, some d => "ok " ++ encFieldD (parseFieldD fo isIn t d)
+      | _, _, _, _ => "err args"
+    | _ => "err args"),
+  ("gql.getdefault", fun
+    | [isIn, d] => match isIn.bool?, default? d with
+      | some isIn, some d => "ok " ++ encPyVal (getDefault isIn d)
+      | _, _ => "err args"
+    | _ => "err args"),
+  ("gql.truthy", fun
+    | [v] => match pyval? v with
+      | some v => "ok " ++ b v.truthy
+      | none => "err args"
+    | _ => "err args"),
+  ("gql.resolve", fun
+    | [fo, n, .list fs, is, .list bases, q] =>
+      match fo.bool?, n.str?, fs.mapM field?, is.strs?, bases.mapM (fun (x : SX) => match x with
+          | SX.list bfs => bfs.mapM field?
+          | _ => none), q.str? with
+      | some fo, some n, some fs, some is, some bases, some q =>
+        let c := parseObjectLike fo n fs is
+        let bs := bases.map (fun bfs => bfs.map (fun f => Member.field f.1 (parseField fo f.2)))
+        (match resolveMember c.members bs q with
+          | some m => "ok " ++ encMember m
+          | none => "ok none")
+      | _, _, _, _, _, _ => "err args"
+    | _ => "err args"),
   ("gql.parsefield", fun
     | [fo, t] => match fo.bool?, gtype? t with
       | some fo, some t => "ok " ++ encField (parseField fo t)
